@@ -98,14 +98,15 @@ Section Spec.
 End Spec.
 
 (* the initial value of a feature as a state variable (encoded by its format) *)
-Definition initial_value (N : Num) (f : feature N) : N :=
+Definition initial_value (N : Num) (of_int : Z -> N) (f : feature N) : N :=
   match f with
   | FDistance _ i | FTime _ i | FEnergy _ i => i
   | FCustom _ _ (FFloat i) => i
-  | FCustom _ _ (FSigned z) => of_Z z
-  | FCustom _ _ (FUnsigned z) => of_Z z
+  | FCustom _ _ (FSigned z) => of_int z          (* `as f64` *)
+  | FCustom _ _ (FUnsigned z) => of_int z
   | FCustom _ _ (FBool b) => if b then one else zero
   end.
-Definition initial_state (N : Num) (s : list (string * feature N)) : list N := map (fun nf => initial_value N (snd nf)) s.
+Definition initial_state (N : Num) (of_int : Z -> N) (s : list (string * feature N)) : list N :=
+  map (fun nf => initial_value N of_int (snd nf)) s.
 
 End SMS.
